@@ -25,7 +25,33 @@ def main(tier, replay=None):
         s["tid"] = i
         s["cli"] = 1 if i % 10 == 0 or s["big"] else 0
     traces = C.pmap("harness.agp_engine", "run_rt", scen, chunk=200)
-    traces += A.corrupt_traces(len(traces) + 1)
+    # texts of more than 100 000 lines: a few TPF-expressible assemblies of the universe repeated thousands of times (agp_engine.run_many)
+    import random
+    rng = random.Random(C.seed() + 2)
+    cand = []
+    for a in ex["objs"]:
+        if len(a["scaffolds"]) >= 2 and len({s["name"] for s in a["scaffolds"]}) == len(a["scaffolds"]):
+            # made TPF-expressible: tags dropped, unknown strands made +, leading gap rows dropped
+            scs = []
+            for s in a["scaffolds"]:
+                rows = [dict(r, tags=[], st=(r["st"] or 1) if r["k"] == "F" else 0) for r in s["rows"]]
+                while rows and rows[0]["k"] == "G":
+                    rows.pop(0)
+                if rows:
+                    scs.append({"name": s["name"], "rows": rows})
+            if len(scs) >= 2 and sum(len(s["rows"]) for s in scs) >= 4:
+                cand.append({"header": a["header"], "scaffolds": scs})
+    many = []
+    for a in rng.sample(cand, min(len(cand), 3 if tier == "quick" else 10)):
+        nl = sum(len(s["rows"]) for s in a["scaffolds"])
+        many.append({"asm": a, "K": 110000 // nl + 1, "tid": 0})
+    tid = len(traces) + 1
+    for m in many:
+        m["tid"] = tid
+        tid += 10
+    for lst in C.pmap("harness.agp_engine", "run_many", many, chunk=1):
+        traces += lst
+    traces += A.corrupt_traces(tid)
     jr = C.judge("AgpTpfTrace", traces, run.dir, consts="NRandomAsm = 0", shard=max(200, len(traces) // 16 + 1), spec="TraceSpec")
     n = C.report(run, "C05", jr["V"], {t["tid"]: t for t in traces})
     for m in jr["M"][:5]:
@@ -38,7 +64,9 @@ def main(tier, replay=None):
         "rule": "abstract assemblies of AgpTpf!Universe exported by TLC: every single-row scaffold over the row pool (6 tricky contig names x 4 coordinate pairs "
                 "up to 2e9 x strands +,-,? x 0-2 tags; 4 gap types x 2 lengths) x 3 scaffold names x 3 header variants, plus seeded random assemblies of 1-3 "
                 "scaffolds x 1-3 rows, plus 6 assemblies with coordinates of 10^12 (string tokens); each written and read back by the real AGP and TPF "
-                "code (every 10th also through the asm-format CLI), plus line-level corruptions of a canonical text",
+                "code (every 10th also through the asm-format CLI), plus line-level corruptions of a canonical text, plus a few of the assemblies repeated "
+                "thousands of times so that the texts exceed 100 000 lines (cut back into periods; period 1 and every period that differs from it are judged)",
+        "many_line_texts": len(many), "many_line_periods_judged": sum(1 for t in traces if t.get("periods")),
         "round_trip_traces": len(rts), "corrupted_line_traces": len(cor), "corruptions_that_raise": sum(1 for t in cor if t["exc"]),
         "tpf_expressible": sum(1 for t in rts if t["tpf_exc"] == ""), "through_cli": sum(1 for s in scen if s["cli"]),
         "model_drift": len(jr["M"]), "model_conformant": len(jr["M"]) == 0,
